@@ -9,62 +9,64 @@ From GMS Require Import Store.C14Editor Store.C14EditorProofs Store.C13Refine St
 
 (* One statement (INSERT, INSERT IGNORE, REPLACE, ON DUPLICATE KEY UPDATE, UPDATE, DELETE with WHERE / ORDER BY / LIMIT):
    outcome, counts and stored rows of the editor equal those of the reference, for every keyed table without a unique
-   secondary index and with a binary-collated / integer key, under the guard that the row key strings are injective on a
-   set U of rows that contains the stored rows and the statement's rows and is closed under the statement's assignments. *)
+   secondary index and with a binary-collated / integer key.  Since getRowKey is length-prefixed (commit 1b57e874c) the
+   former guard "row key strings injective" is a theorem (C14_row_key_injective); what remains is typing: the stored
+   rows and the statement's rows hold integers / strings of fixed kinds ks in the key columns, and the statement's
+   assignments keep it so ([stmt_in_U]; assignments to non-key columns always do, C13_nonkey_assignments_are_typed). *)
 Theorem C13_editor_refines_keyed_map :
+  forall sch ks, pk_binary sch -> s_uniq sch = [] ->
+    forall rows st, Pre sch (key_kinds sch ks) rows -> stmt_in_U (key_kinds sch ks) st ->
+      pk_exec sch rows st = spec_exec sch rows st /\ Pre sch (key_kinds sch ks) (snd (spec_exec sch rows st)).
+Proof. exact pk_refines_spec_typed. Qed.
+Print Assumptions C13_editor_refines_keyed_map.
+
+(* hence every history: the stored rows after each statement are the reference's *)
+Theorem C13_history_refines_keyed_map :
+  forall sch ks, pk_binary sch -> s_uniq sch = [] ->
+    forall h rows, keyless sch = false -> Pre sch (key_kinds sch ks) rows -> Forall (stmt_in_U (key_kinds sch ks)) h ->
+      run_history sch rows h = spec_history sch rows h.
+Proof. exact history_refines_spec_typed. Qed.
+Print Assumptions C13_history_refines_keyed_map.
+
+Theorem C13_nonkey_assignments_are_typed :
+  forall sch ks a, (forall x, In x a -> ~ In (fst x) (s_pk sch)) ->
+    forall r, key_kinds sch ks r -> key_kinds sch ks (apply_assigns a r).
+Proof. exact assigns_nonkey_kinds. Qed.
+Print Assumptions C13_nonkey_assignments_are_typed.
+
+(* the general form, for any set U of rows on which the row key is injective (kept: it does not depend on the key format) *)
+Theorem C13_editor_refines_keyed_map_on_injective_rows :
   forall sch (U : row -> Prop),
     (forall a b, U a -> U b -> key_str sch a = key_str sch b -> key sch a = key sch b) ->
     pk_binary sch -> s_uniq sch = [] ->
     forall rows st, Pre sch U rows -> stmt_in_U U st ->
       pk_exec sch rows st = spec_exec sch rows st /\ Pre sch U (snd (spec_exec sch rows st)).
 Proof. exact pk_refines_spec. Qed.
-Print Assumptions C13_editor_refines_keyed_map.
+Print Assumptions C13_editor_refines_keyed_map_on_injective_rows.
 
-(* hence every history: the stored rows after each statement are the reference's *)
-Theorem C13_history_refines_keyed_map :
-  forall sch (U : row -> Prop),
-    (forall a b, U a -> U b -> key_str sch a = key_str sch b -> key sch a = key sch b) ->
-    pk_binary sch -> s_uniq sch = [] ->
-    forall h rows, keyless sch = false -> Pre sch U rows -> Forall (stmt_in_U U) h ->
-      run_history sch rows h = spec_history sch rows h.
-Proof. exact history_refines_spec. Qed.
-Print Assumptions C13_history_refines_keyed_map.
-
-(* Without the injectivity guard the refinement is false of the faithful model.  PRIMARY KEY(a,b), rows (1,12,0),(11,2,0):
-   UPDATE t SET c = c + 1 reports 2 changed rows but changes one (the second row's Delete removes the first row's
-   pending add, both have row key "112") ... *)
-Theorem C13_editor_refines_keyed_map_refuted :
-  exists sch rows st, keyless sch = false /\ keys_nodup sch rows /\
-    impl_exec sch rows st = (OOk 2 2, [[VInt 1; VInt 12; VInt 0]; [VInt 11; VInt 2; VInt 1]]) /\
-    spec_exec sch rows st = (OOk 2 2, [[VInt 1; VInt 12; VInt 1]; [VInt 11; VInt 2; VInt 1]]).
-Proof. exact (ex_intro _ c13_sch (ex_intro _ c13_rows (ex_intro _ c13_upd lost_update_witness))). Qed.
-Print Assumptions C13_editor_refines_keyed_map_refuted.
-
-(* ... and UPDATE t SET a = a + 100, b = b + 100 turns two rows into three *)
-Theorem C13_update_creates_row_refuted :
-  exists sch rows st,
-    impl_exec sch rows st =
-      (OOk 2 2, [[VInt 1; VInt 12; VInt 0]; [VInt 101; VInt 112; VInt 0]; [VInt 111; VInt 102; VInt 0]]) /\
-    spec_exec sch rows st = (OOk 2 2, [[VInt 101; VInt 112; VInt 0]; [VInt 111; VInt 102; VInt 0]]).
-Proof. exact (ex_intro _ c13_sch (ex_intro _ c13_rows (ex_intro _ c13_move row_created_witness))). Qed.
-Print Assumptions C13_update_creates_row_refuted.
+(* regression witnesses of the repaired defect: PRIMARY KEY(a,b), rows (1,12,0),(11,2,0) (row keys formerly "112" twice):
+   UPDATE t SET c = c + 1 changes both rows, UPDATE t SET a = a + 100, b = b + 100 keeps two rows - as the reference *)
+Theorem C13_former_collision_witnesses_refine :
+  impl_exec c13_sch c13_rows c13_upd = (OOk 2 2, [[VInt 1; VInt 12; VInt 1]; [VInt 11; VInt 2; VInt 1]]) /\
+  spec_exec c13_sch c13_rows c13_upd = (OOk 2 2, [[VInt 1; VInt 12; VInt 1]; [VInt 11; VInt 2; VInt 1]]) /\
+  impl_exec c13_sch c13_rows c13_move = (OOk 2 2, [[VInt 101; VInt 112; VInt 0]; [VInt 111; VInt 102; VInt 0]]) /\
+  spec_exec c13_sch c13_rows c13_move = (OOk 2 2, [[VInt 101; VInt 112; VInt 0]; [VInt 111; VInt 102; VInt 0]]).
+Proof. exact former_witnesses_refine. Qed.
+Print Assumptions C13_former_collision_witnesses_refine.
 
 (* the reference keeps the keys of the logical table pairwise different (it is a keyed map), via the refinement *)
 Theorem C13_reference_is_a_keyed_map :
-  forall sch (U : row -> Prop),
-    (forall a b, U a -> U b -> key_str sch a = key_str sch b -> key sch a = key sch b) ->
-    pk_binary sch -> s_uniq sch = [] ->
-    forall rows st, Pre sch U rows -> stmt_in_U U st -> NoDup (map (key sch) (snd (spec_exec sch rows st))).
+  forall sch ks, pk_binary sch -> s_uniq sch = [] ->
+    forall rows st, Pre sch (key_kinds sch ks) rows -> stmt_in_U (key_kinds sch ks) st ->
+      NoDup (map (key sch) (snd (spec_exec sch rows st))).
 Proof.
-  exact (fun sch U Hi Hb Hn rows st HP HS => proj1 (proj2 (pk_refines_spec sch U Hi Hb Hn rows st HP HS))).
+  exact (fun sch ks Hb Hn rows st HP HS => proj1 (proj2 (pk_refines_spec_typed sch ks Hb Hn rows st HP HS))).
 Qed.
 Print Assumptions C13_reference_is_a_keyed_map.
 
-(* the guard is satisfiable: a composite key, a universe of four rows closed under SET c2 = 7 *)
+(* the premises are satisfiable, on the formerly colliding rows *)
 Example C13_nonvacuous :
-  (forall a b, c13_U a -> c13_U b -> key_str c13_sch a = key_str c13_sch b -> key c13_sch a = key c13_sch b) /\
-  pk_binary c13_sch /\ (forall r, c13_U r -> c13_U (apply_assigns [(2%nat, AConst (VInt 7))] r)) /\
-  impl_exec c13_sch [[VInt 1; VInt 2; VInt 0]; [VInt 3; VInt 4; VInt 0]] (SUpdate [(2%nat, AConst (VInt 7))] PTrue None None)
-    = (OOk 2 2, [[VInt 1; VInt 2; VInt 7]; [VInt 3; VInt 4; VInt 7]]).
-Proof. exact (conj c13_U_inj (conj c13_bin (conj c13_U_closed eq_refl))). Qed.
+  pk_binary c13_sch /\ Pre c13_sch (key_kinds c13_sch [KInt; KInt]) c13_rows /\
+  stmt_in_U (key_kinds c13_sch [KInt; KInt]) c13_upd.
+Proof. exact (conj c13_bin (conj c13_pre c13_upd_typed)). Qed.
 Print Assumptions C13_nonvacuous.
